@@ -20,6 +20,7 @@ EXPLANATION = (
     "drains; (sentinel) initial activation yields the sentinel so it never becomes a caller's result; (target) the state "
     "entered is chosen by _get_initial_state with a None-test on start_value, unmapped values raise InvalidStateValue. "
     "That only the target's enter callbacks run is C02.initial. Callbacks fired by user code on its own are not decided."
+    " Added after seeded batch 9: the map a stored value is resumed through is keyed by state values only and holds one state per value (shared with C10.access; F40)."
 )
 ASSUMPTIONS = ["a model whose state field reads None has no stored state (API contract)"]
 TRUSTED = ["/verif/sa path enumerator and resolver"]
